@@ -17,12 +17,14 @@ struct GeomSpec { DataCfg d; GridCfg g; MatOpt o; };
 static MatOpt O(int ntl, bool uadb = false, bool cyl = true) { MatOpt o; o.ntl = ntl; o.uadb = uadb; o.cyl = cyl; return o; }
 
 // ------------------------------------------------------------------------------------------- sym
+static int g_sym_stride = 1;   // quick tier: every g_sym_stride-th requested switch setting (plus none and all) after the first configuration
 static void sym_config(vh::Trace& tr, const DataCfg& d, const GridCfg& g, bool per_bin, long& id) {
   shared_ptr<ProjDataInfo> pdi = make_pdi(d);
   const ProjDataInfoCylindrical& cyl = dynamic_cast<const ProjDataInfoCylindrical&>(*pdi);
   shared_ptr<VoxelsOnCartesianGrid<float>> im = make_image(*pdi, g);
   const std::vector<Bin> bins = all_bins(*pdi);
   for (int mask = 0; mask < 32; ++mask) {
+    if (id > 0 && mask != 0 && mask != 31 && mask != 16 && (mask + id / 32) % g_sym_stride != 0) continue;
     const Sw sw = sw_from_bits(mask);
     shared_ptr<DataSymmetriesForBins_PET_CartesianGrid> sym;
     std::string msg;
@@ -81,6 +83,7 @@ static void sym_config(vh::Trace& tr, const DataCfg& d, const GridCfg& g, bool p
 
 static void run_sym(vh::Trace& tr, int tier) {
   long id = 0;
+  g_sym_stride = tier > 0 ? 1 : 3;
   auto D = [](int N, int R, int span, int maxDelta, int mash, int tofMash, int maxT, int numTang, float tilt = 0.F, const char* geom = "Cylindrical") {
     DataCfg d; d.N = N; d.R = R; d.span = span; d.maxDelta = maxDelta; d.mash = mash; d.tofMash = tofMash; d.maxT = maxT; d.numTang = numTang; d.tilt = tilt; d.geom = geom; return d; };
   auto G = [](int nx, int ny, int nz, float vx, float vy, int nppr, int oz, float ox = 0.F, float oy = 0.F) {
@@ -123,7 +126,17 @@ struct Family {
 
 // matrix object of either class behind the ProjMatrixByBin interface
 // (for a "FromFile" family this gives the ray-tracing matrix the file is written from / the reference)
+static shared_ptr<ProjMatrixByBin> new_spectub(bool keep_all, bool cache_on, bool basic_only) {
+  shared_ptr<ProjMatrixByBinSPECTUB> m(new ProjMatrixByBinSPECTUB);
+  m->set_keep_all_views_in_cache(keep_all);
+  m->set_attenuation_type("no");
+  m->set_resolution_model(0.F, 0.F, false);
+  m->enable_cache(cache_on);
+  m->store_only_basic_bins_in_cache(basic_only);
+  return m;
+}
 static shared_ptr<ProjMatrixByBin> new_matrix(const std::string& impl, const Sw& sw, bool cache_on, bool basic_only) {
+  if (impl == "SPECTUB") return new_spectub(true, cache_on, basic_only);
   if (impl == "Interpolation") {
     shared_ptr<ProjMatrixByBinUsingInterpolation> m(new ProjMatrixByBinUsingInterpolation);
     parse_interpolation(*m, sw, cache_on, basic_only);
@@ -160,7 +173,7 @@ struct Recorder {
       emit_geometry(j, gs.d, dynamic_cast<const ProjDataInfoCylindrical&>(*pdi), *im, gs.o, f.impl);
       tr.emit(j);
       // reference: every row computed directly (no symmetries, no cache) by a matrix of its own
-      shared_ptr<ProjMatrixByBin> ref = new_matrix(f.impl, sw_from_bits(0), false, false);
+      shared_ptr<ProjMatrixByBin> ref = f.impl == "SPECTUB" ? new_spectub(true, true, true) : new_matrix(f.impl, sw_from_bits(0), false, false);
       options(*ref, gs.o);
       std::map<std::vector<int>, long> lines;
       const bool ok = !vh::threw([&] { ref->set_up(pdi, im); });
@@ -170,6 +183,8 @@ struct Recorder {
         for (const Bin& b : bins.back()) {
           ProjMatrixElemsForOneBin row;
           ref->get_proj_matrix_elems_for_one_bin(row, b);
+          // SPECTUB computes a view at a time into its cache: the row as stored there is the one of the second request
+          if (f.impl == "SPECTUB") ref->get_proj_matrix_elems_for_one_bin(row, b);
           const float s = pdi->get_s(b), ds = pdi->get_sampling_in_s(b);
           tr.emit(vh::Json("Ref").num("gid", (long)k + 1).arr("b", bin_list(b)).raw("row", row_json(row))
                       .num("sx", vh::fx(s / vs.x(), 12)).num("sy", vh::fx(s / vs.y(), 12))
@@ -192,6 +207,12 @@ struct Recorder {
   };
   Obj make(const Family& f, const Sw& sw, bool cache_on, bool basic_only) {
     Obj o; o.sw = sw; o.cache_on = cache_on; o.basic_only = basic_only; o.impl = f.impl;
+    if (f.impl == "SPECTUB") {
+      // no symmetry switches; the first switch bit is used as keep_all_views_in_cache
+      o.m = new_spectub(sw.s90, cache_on, basic_only);
+      tr.emit(vh::Json("New").str("impl", f.impl).boolean("keepAll", sw.s90).boolean("cacheOn", cache_on).boolean("basicOnly", basic_only));
+      return o;
+    }
     o.m = new_matrix(f.impl, sw, cache_on, basic_only);
     tr.emit(vh::Json("New").str("impl", f.impl).arr("sw", sw_list(sw)).boolean("cacheOn", cache_on).boolean("basicOnly", basic_only));
     return o;
@@ -326,6 +347,7 @@ struct Recorder {
         const int g = rng.range(1, (int)f.geoms.size());
         if (!set_up(o, f, g)) set_up(o, f, pick_usable(f));
       }
+      else if (f.impl == "SPECTUB") set_up(o, f, o.gid);     // (no switches) set up again for the same geometry
       else if (r < 98) { set_sw(o, sw_from_bits(rng.range(0, 31))); set_up(o, f, o.gid); }
       else {
         // a switch changed without a new set_up: the next request either comes from the cache or must be refused
@@ -392,6 +414,12 @@ static std::vector<Family> families(int tier) {
                                    { D(16, 3, 3, 1, 1, 0, 0, 5), G(9, 9, 5, 3.3F, 3.3F, 2, 0), O(1) } }, 10, 2 });
   }
   {
+    // ProjMatrixByBinSPECTUB (no attenuation, geometrical PSF): arc-corrected single-segment data, planes = axial positions
+    DataCfg d = D(16, 4, 1, 0, 1, 0, 0, 9); d.spect = true;
+    DataCfg e = D(12, 3, 1, 0, 1, 0, 0, 7); e.spect = true;
+    fs.push_back({ "spectub", "SPECTUB", { { d, G(9, 9, 4, 4.F, 4.F, 1, 0), O(1) }, { d, G(7, 7, 4, 4.F, 4.F, 1, 0), O(1) }, { e, G(7, 7, 3, 4.F, 4.F, 1, 0), O(1) } }, 4, 1 });
+  }
+  {
     // block geometry, 2 crystals per axial block (actual detector positions are forced; shift_z is the only symmetry);
     // second geometry: 3 crystals per block with a gap between the blocks
     DataCfg d = D(8, 6, 1, 5, 1, 0, 0, 3); d.geom = "BlocksOnCylindrical"; d.cpb = 2;
@@ -456,7 +484,7 @@ static void run_rows(vh::Trace& tr, int tier, int only, vh::Rng& rng, const std:
       const int mask = nmask == 32 ? k : (k == 0 ? 31 : frng.range(0, 31));
       for (int mode = 0; mode < (f.all_mode ? 3 : 2); ++mode) {
         maybe_open();
-        rec.history(f, sw_from_bits(mask), mode != 0, mode == 1, len);
+        rec.history(f, sw_from_bits(mask), mode != 0, mode == 1 || !f.all_mode, len);
       }
     }
   }
